@@ -62,3 +62,378 @@ Proof.
   - intros H; inversion H.
   - intros H; inversion H.
 Qed.
+
+(* ---------- the root lists and the _eresource back-pointers agree, always ---------- *)
+Definition res_ok (s : state) : Prop :=
+  (forall r, NoDup (rcont s r)) /\
+  (forall c r, In c (rcont s r) <-> eres s c = Some r).
+
+(* procedures that touch neither root lists nor _eresource *)
+Definition rframe (s s' : state) : Prop := rcont s' = rcont s /\ eres s' = eres s.
+
+Lemma rframe_refl s : rframe s s.
+Proof. split; reflexivity. Qed.
+
+Lemma rframe_trans s1 s2 s3 : rframe s1 s2 -> rframe s2 s3 -> rframe s1 s3.
+Proof. intros [A1 A2] [B1 B2]. split; congruence. Qed.
+
+Lemma res_ok_frame s s' : rframe s s' -> res_ok s -> res_ok s'.
+Proof. intros [E1 E2] [H1 H2]. split; intros; rewrite ?E1, ?E2; auto. Qed.
+
+Lemma remove_nat_In o x l : NoDup l -> (In x (remove_nat o l) <-> In x l /\ x <> o).
+Proof.
+  induction l as [|y ys IH]; intros ND; simpl; [tauto|].
+  inversion ND as [|? ? Hy ND']; subst.
+  destruct (Nat.eqb_spec y o) as [E|N].
+  - subst y. split; [intros H; split; [right; exact H | intros ->; contradiction]|].
+    intros [[H|H] Hn]; [congruence | exact H].
+  - simpl. rewrite (IH ND'). split.
+    + intros [H|[H Hn]]; [subst; tauto | tauto].
+    + intros [[H|H] Hn]; tauto.
+Qed.
+
+Lemma remove_nat_NoDup o l : NoDup l -> NoDup (remove_nat o l).
+Proof.
+  induction l as [|y ys IH]; intros ND; simpl; [constructor|].
+  inversion ND as [|? ? Hy ND']; subst. destruct (y =? o); [exact ND'|].
+  constructor; [|apply IH; exact ND']. intros H. apply (remove_nat_In o y ys ND') in H. tauto.
+Qed.
+
+Lemma nmem_In o l : nmem o l = true <-> In o l.
+Proof.
+  unfold nmem. rewrite existsb_exists. split.
+  - intros [x [Hx E]]. apply Nat.eqb_eq in E. subst. exact Hx.
+  - intros H. exists o. split; [exact H | apply Nat.eqb_refl].
+Qed.
+
+Lemma res_ok_remove_raw s r o : res_ok s -> In o (rcont s r) -> res_ok (res_remove_raw s r o).
+Proof.
+  intros [H1 H2] Hin. pose proof (proj1 (H2 o r) Hin) as Ho.
+  unfold res_remove_raw. split; cbn [rcont eres set_eres set_rcont].
+  - intros r'. unfold updn. destruct (r =? r'); [apply remove_nat_NoDup|]; apply H1.
+  - intros c r'. unfold updn.
+    destruct (Nat.eqb_spec r r') as [Er|Nr]; destruct (Nat.eqb_spec o c) as [Eo|No].
+    + subst. rewrite (remove_nat_In c c (rcont s r') (H1 r')). split; [intros [_ H]; congruence | discriminate].
+    + subst. rewrite (remove_nat_In o c (rcont s r') (H1 r')). rewrite H2.
+      split; [tauto | intros H; split; [exact H | congruence]].
+    + subst c. split; [|discriminate]. intros H. apply H2 in H. congruence.
+    + apply H2.
+Qed.
+
+Section ResOk.
+Variable m : mm.
+
+Lemma rframe_uc_clear s f p : rframe s (uc_clear m s f p).
+Proof. unfold uc_clear. destruct (f_cont (fd m f)); [destruct p|]; split; reflexivity. Qed.
+
+Lemma rframe_set_store s k v : rframe s (set_store m s k v).
+Proof. split; reflexivity. Qed.
+
+Lemma rframe_set_none_raw s k : rframe s (set_none_raw m s k).
+Proof.
+  unfold set_none_raw. destruct (f_isref (fd m (snd k))); [|apply rframe_set_store].
+  eapply rframe_trans; [apply rframe_set_store | apply rframe_uc_clear].
+Qed.
+
+Lemma rframe_coll_remove_raw s k x : rframe s (coll_remove_raw m s k x).
+Proof.
+  unfold coll_remove_raw. destruct (vmem (VObj x) (vals s k)); [|apply rframe_refl].
+  pose proof (rframe_uc_clear s (snd k) (Some x)) as [A B]. split; cbn [rcont eres notify push_log set_vals]; assumption.
+Qed.
+
+Lemma rframe_inv_add s o c : rframe s (inv_add s o c).
+Proof. unfold inv_add. destruct (cmem c (inv s o)); split; reflexivity. Qed.
+
+Lemma rframe_update_opposite_remove s x f y : rframe s (update_opposite_remove m s x f y).
+Proof.
+  unfold update_opposite_remove. destruct (f_opp (fd m f)) as [g|].
+  - destruct (f_many (fd m g)).
+    + destruct (cell_eqb (y, g) (x, f)); [apply rframe_refl | apply rframe_coll_remove_raw].
+    + apply rframe_set_none_raw.
+  - destruct (cmem (x, f) (inv s y)); [split; reflexivity | apply rframe_inv_add].
+Qed.
+
+Lemma rframe_unlink_elem s x f v : rframe s (unlink_elem m s x f v).
+Proof.
+  unfold unlink_elem. destruct (f_isref (fd m f)); [|apply rframe_refl]. destruct (obj_of v); [|apply rframe_refl].
+  eapply rframe_trans; [apply rframe_uc_clear | apply rframe_update_opposite_remove].
+Qed.
+
+Lemma rframe_coll_remove_full s k v : rframe s (coll_remove_full m s k v).
+Proof.
+  destruct k as [x f]. unfold coll_remove_full.
+  set (s1 := if f_isref (fd m f) then
+               match obj_of v with
+               | Some y => update_opposite_remove m (uc_clear m s f (Some y)) x f y
+               | None => s end else s).
+  assert (H1 : rframe s s1).
+  { unfold s1. destruct (f_isref (fd m f)); [|apply rframe_refl]. destruct (obj_of v); [|apply rframe_refl].
+    eapply rframe_trans; [apply rframe_uc_clear | apply rframe_update_opposite_remove]. }
+  destruct H1 as [A B]. split; cbn [rcont eres notify push_log set_vals]; assumption.
+Qed.
+
+Lemma rframe_set_none_full s k : rframe s (set_none_full m s k).
+Proof.
+  destruct k as [x f]. unfold set_none_full.
+  destruct (f_isref (fd m f)); cbn [negb]; [|apply rframe_set_store].
+  set (s2 := uc_clear m (set_store m s (x, f) VNone) f (obj_of (single s (x, f)))).
+  assert (H2 : rframe s s2) by (eapply rframe_trans; [apply rframe_set_store | apply rframe_uc_clear]).
+  destruct (f_opp (fd m f)) as [g|].
+  - destruct (obj_of (single s (x, f))) as [q|]; [|exact H2].
+    destruct (f_many (fd m g)).
+    + eapply rframe_trans; [exact H2 | apply rframe_coll_remove_raw].
+    + destruct (cell_eqb (q, g) (x, f)); [exact H2|].
+      eapply rframe_trans; [exact H2 | apply rframe_set_none_raw].
+  - destruct (obj_of (single s (x, f))); [|exact H2].
+    eapply rframe_trans; [exact H2 | split; reflexivity].
+Qed.
+
+Lemma rframe_remove_or_unset s k y : rframe s (remove_or_unset m s k y).
+Proof.
+  unfold remove_or_unset. destruct (f_many (fd m (snd k))).
+  - destruct (vmem (VObj y) (vals s k)); [apply rframe_coll_remove_full | apply rframe_refl].
+  - apply rframe_set_none_full.
+Qed.
+
+(* the container update may take the new child out of the resource it was a root of *)
+Lemma res_ok_update_container s x f v p : res_ok s -> res_ok (update_container m s x f v p).
+Proof.
+  intros H. unfold update_container. destruct (f_cont (fd m f)); cbn [negb]; [|exact H].
+  assert (H1 : res_ok match v with
+    | Some y =>
+      let sa := match eresource_of m s y with
+                | Some r => if nmem y (rcont s r) then res_remove_raw s r y else s
+                | None => s end in
+      let sb := match cont sa y with
+                | Some (p0, pf) => if negb ((p0 =? x) && (pf =? f)) then remove_or_unset m sa (p0, pf) y else sa
+                | None => sa end in
+      set_cont sb y (Some (x, f))
+    | None => s end).
+  { destruct v as [y|]; [|exact H]. cbv zeta.
+    set (sa := match eresource_of m s y with
+               | Some r => if nmem y (rcont s r) then res_remove_raw s r y else s
+               | None => s end).
+    assert (Ha : res_ok sa).
+    { unfold sa. destruct (eresource_of m s y) as [r|]; [|exact H].
+      destruct (nmem y (rcont s r)) eqn:En; [|exact H]. apply res_ok_remove_raw; [exact H | apply nmem_In; exact En]. }
+    destruct (cont sa y) as [[p0 pf]|]; [|exact Ha].
+    destruct (negb ((p0 =? x) && (pf =? f))); [|exact Ha].
+    apply (res_ok_frame (remove_or_unset m sa (p0, pf) y)); [split; reflexivity|].
+    apply (res_ok_frame sa); [apply rframe_remove_or_unset | exact Ha]. }
+  destruct p as [p|]; [|exact H1]. destruct v as [y|]; [destruct (y =? p)|]; exact H1.
+Qed.
+
+Lemma res_ok_set_obj_raw s k x : res_ok s -> res_ok (set_obj_raw m s k x).
+Proof.
+  intros H. unfold set_obj_raw.
+  assert (H1 : res_ok (set_store m s k (VObj x))) by exact H.
+  destruct (f_isref (fd m (snd k))); [apply res_ok_update_container|]; exact H1.
+Qed.
+
+Lemma res_ok_coll_append_raw s k x : res_ok s -> res_ok (coll_append_raw m s k x).
+Proof.
+  intros H. unfold coll_append_raw.
+  pose proof (res_ok_update_container s (fst k) (snd k) (Some x) None H) as H1. exact H1.
+Qed.
+
+Lemma res_ok_update_opposite_add s x f y : res_ok s -> res_ok (update_opposite_add m s x f y).
+Proof.
+  intros H. unfold update_opposite_add. destruct (f_opp (fd m f)) as [g|].
+  - destruct (f_many (fd m g)).
+    + destruct (cell_eqb (y, g) (x, f)); [exact H | apply res_ok_coll_append_raw; exact H].
+    + apply res_ok_set_obj_raw.
+      destruct (obj_of (single s (y, g))) as [c|]; [|exact H].
+      destruct (c =? x); [exact H|]. apply (res_ok_frame s); [apply rframe_coll_remove_raw | exact H].
+  - apply (res_ok_frame s); [apply rframe_inv_add | exact H].
+Qed.
+
+Lemma res_ok_link_elem s x f v : res_ok s -> res_ok (link_elem m s x f v).
+Proof.
+  intros H. unfold link_elem. destruct (f_isref (fd m f)); [|exact H]. destruct (obj_of v) as [y|]; [|exact H].
+  apply res_ok_update_opposite_add. apply res_ok_update_container. exact H.
+Qed.
+
+Lemma res_ok_set_full s k v : res_ok s -> res_ok (snd (set_full m s k v)).
+Proof.
+  intros H. destruct k as [x f]. unfold set_full.
+  destruct (check_single m f v); cbn [negb]; [|exact H].
+  assert (H1 : res_ok (set_store m s (x, f) v)) by exact H.
+  destruct (f_isref (fd m f)); cbn [negb]; [|exact H1].
+  set (s2 := update_container m (set_store m s (x, f) v) x f (obj_of v) (obj_of (single s (x, f)))).
+  assert (H2 : res_ok s2) by (apply res_ok_update_container; exact H1).
+  destruct (f_opp (fd m f)) as [g|].
+  - set (s3 := match obj_of (single s (x, f)) with
+               | Some q =>
+                 if match obj_of v with Some y => y =? q | None => false end then s2
+                 else if f_many (fd m g) then coll_remove_raw m s2 (q, g) x
+                 else if cell_eqb (q, g) (x, f) then s2 else set_none_raw m s2 (q, g)
+               | None => s2 end).
+    assert (H3 : res_ok s3).
+    { unfold s3. destruct (obj_of (single s (x, f))) as [q|]; [|exact H2].
+      destruct (match obj_of v with Some y => y =? q | None => false end); [exact H2|].
+      destruct (f_many (fd m g)); [apply (res_ok_frame s2); [apply rframe_coll_remove_raw | exact H2]|].
+      destruct (cell_eqb (q, g) (x, f)); [exact H2|]. apply (res_ok_frame s2); [apply rframe_set_none_raw | exact H2]. }
+    destruct (obj_of v) as [y|]; [|exact H3].
+    destruct (f_many (fd m g)); cbn [snd].
+    + apply res_ok_coll_append_raw; exact H3.
+    + apply res_ok_set_obj_raw.
+      destruct (obj_of (single s3 (y, g))) as [c|]; [|exact H3].
+      destruct (c =? x); [exact H3|]. apply (res_ok_frame s3); [apply rframe_set_none_raw | exact H3].
+  - cbn [snd]. destruct (obj_of v) as [y|].
+    + apply (res_ok_frame (match obj_of (single s (x, f)) with Some q => inv_del s2 q (x, f) | None => s2 end));
+        [apply rframe_inv_add|]. destruct (obj_of (single s (x, f))); exact H2.
+    + destruct (obj_of (single s (x, f))); exact H2.
+Qed.
+
+Lemma res_ok_coll_add_full s k pos v : res_ok s -> res_ok (snd (coll_add_full m s k pos v)).
+Proof.
+  intros H. destruct k as [x f]. unfold coll_add_full. destruct (check_elem m f v); cbn [negb snd]; [|exact H].
+  pose proof (res_ok_link_elem s x f v H) as H1. exact H1.
+Qed.
+
+Lemma res_ok_coll_pop_full s k i : res_ok s -> res_ok (snd (fst (coll_pop_full m s k i))).
+Proof.
+  intros H. destruct k as [x f]. unfold coll_pop_full. destruct (vals s (x, f)) as [|a l]; [exact H|].
+  destruct (py_pop i (a :: l)) as [[v l']|]; [|exact H]. cbn [fst snd].
+  apply (res_ok_frame (set_vals s (x, f) l')); [|exact H].
+  pose proof (rframe_unlink_elem (set_vals s (x, f) l') x f v) as [A B]. split; cbn [rcont eres notify push_log]; assumption.
+Qed.
+
+Lemma rframe_fold_unlink s x f l : rframe s (fold_left (fun acc v => unlink_elem m acc x f v) l s).
+Proof.
+  revert s; induction l as [|v l IH]; intros s; simpl; [apply rframe_refl|].
+  eapply rframe_trans; [apply rframe_unlink_elem | apply IH].
+Qed.
+
+Lemma rframe_coll_clear_full s k : rframe s (coll_clear_full m s k).
+Proof.
+  destruct k as [x f]. unfold coll_clear_full. destruct (vals s (x, f)) as [|a l]; [apply rframe_refl|].
+  pose proof (rframe_fold_unlink s x f (a :: l)) as [A B]. split; cbn [rcont eres notify push_log set_vals]; assumption.
+Qed.
+
+Lemma res_ok_coll_extend_full s k vs : res_ok s -> res_ok (snd (coll_extend_full m s k vs)).
+Proof.
+  intros H. destruct k as [x f]. unfold coll_extend_full.
+  destruct (forallb (check_elem m f) vs); cbn [negb snd]; [|exact H].
+  match goal with |- res_ok (set_isset (notify m ?S _ _ _ _ _) _) => set (s1 := S) end.
+  apply (res_ok_frame s1); [split; reflexivity|]. unfold s1. clear s1.
+  destruct (f_unique (fd m f)).
+  - revert s H. induction vs as [|v vs IH]; intros s H; simpl; [exact H|].
+    apply IH. apply res_ok_link_elem. exact H.
+  - assert (Ha : res_ok (fold_left (fun acc v => link_elem m acc x f v) vs s)).
+    { revert s H. induction vs as [|v vs IH]; intros s H; simpl; [exact H|]. apply IH. apply res_ok_link_elem. exact H. }
+    exact Ha.
+Qed.
+
+Lemma res_ok_delete_step x s k : res_ok s -> res_ok (delete_step m x s k).
+Proof.
+  intros H. destruct k as [owner f]. unfold delete_step. destruct (f_many (fd m f)).
+  - destruct (owner =? x); [apply (res_ok_frame s); [apply rframe_coll_clear_full | exact H]|].
+    destruct (vmem (VObj x) (vals s (owner, f))); [apply (res_ok_frame s); [apply rframe_coll_remove_full | exact H] | exact H].
+  - destruct ((match single s (owner, f) with VObj y => y =? x | _ => false end) || (owner =? x)); [|exact H].
+    apply res_ok_set_full. exact H.
+Qed.
+
+Lemma res_ok_delete_obj fuel s x r : res_ok s -> res_ok (delete_obj fuel m s x r).
+Proof.
+  revert s x r; induction fuel as [|fu IH]; intros s x r H; simpl; [exact H|].
+  assert (G : forall l s0, res_ok s0 -> res_ok (fold_left (delete_step m x) l s0)).
+  { induction l as [|k l IHl]; intros s0 H0; simpl; [exact H0|]. apply IHl. apply res_ok_delete_step. exact H0. }
+  apply G. destruct r; [|exact H].
+  generalize (econtents m s x). intros l. revert s H.
+  induction l as [|c l IHl]; intros s H; simpl; [exact H|]. apply IHl. apply IH. exact H.
+Qed.
+
+Lemma res_ok_res_append s r o : res_ok s -> res_ok (res_append m s r o).
+Proof.
+  intros H. unfold res_append.
+  (* appending o, which is currently a root of no resource *)
+  assert (G : forall s0, res_ok s0 -> (forall r', ~ In o (rcont s0 r')) ->
+     res_ok (let s1 := set_eres (set_rcont s0 r (rcont s0 r ++ [o])) o (Some r) in
+             match cont s1 o with
+             | Some (p, pf) =>
+               if f_many (fd m pf)
+               then (if vmem (VObj o) (vals s1 (p, pf)) then coll_remove_full m s1 (p, pf) (VObj o) else s1)
+               else snd (set_full m s1 (p, pf) VNone)
+             | None => s1 end)).
+  { intros s0 [A B] Hno. cbv zeta.
+    set (s1 := set_eres (set_rcont s0 r (rcont s0 r ++ [o])) o (Some r)).
+    assert (H1 : res_ok s1).
+    { split; cbn [rcont eres set_eres set_rcont s1]; unfold updn.
+      - intros r'. destruct (Nat.eqb_spec r r') as [E|N]; [|apply A].
+        subst r'. clear - A Hno. specialize (A r). specialize (Hno r).
+        induction (rcont s0 r) as [|y ys IH]; simpl; [constructor; [tauto | constructor]|].
+        inversion A; subst. constructor.
+        + rewrite in_app_iff. simpl. intros [Hy|[Hy|[]]]; [tauto | subst; apply Hno; left; reflexivity].
+        + apply IH; [assumption | intros Hy; apply Hno; right; exact Hy].
+      - intros c r'. destruct (Nat.eqb_spec r r') as [E|N]; destruct (Nat.eqb_spec o c) as [Eo|No].
+        + subst. rewrite in_app_iff. simpl. tauto.
+        + subst. rewrite in_app_iff. simpl. rewrite B. split; [intros [Hc|[Hc|[]]]; [exact Hc | congruence] | tauto].
+        + subst c. split; [intros Hc; exfalso; exact (Hno r' Hc) | intros Hc; congruence].
+        + apply B. }
+    destruct (cont s1 o) as [[p pf]|]; [|exact H1].
+    destruct (f_many (fd m pf)).
+    - destruct (vmem (VObj o) (vals s1 (p, pf))); [apply (res_ok_frame s1); [apply rframe_coll_remove_full | exact H1] | exact H1].
+    - apply res_ok_set_full. exact H1. }
+  pose proof H as [A B].
+  destruct (eres s o) as [p|] eqn:Ep.
+  - destruct (nmem o (rcont s p)) eqn:En.
+    + destruct (p =? r); [exact H|].
+      apply G; [apply res_ok_remove_raw; [exact H | apply nmem_In; exact En]|].
+      intros r' Hin. pose proof (res_ok_remove_raw s p o H (proj1 (nmem_In o _) En)) as [_ B'].
+      apply B' in Hin. cbn [eres res_remove_raw set_eres set_rcont] in Hin. unfold updn in Hin.
+      rewrite Nat.eqb_refl in Hin. discriminate.
+    + (* eres says p but o is not listed there: contradicts res_ok *)
+      exfalso. apply (proj2 (B o p)) in Ep. apply nmem_In in Ep. congruence.
+  - apply G; [exact H|]. intros r' Hin. apply B in Hin. congruence.
+Qed.
+
+Theorem res_ok_step s o : res_ok s -> res_ok (next m s o).
+Proof.
+  intros H. unfold next, step.
+  destruct o as [x f v|x f|x f|x f vs|x f v|x f i v|x f v|x f i|x f|x f vs|x f i v|x f i|x r|r o|r o|r os|x f];
+    cbn [fst snd].
+  - destruct (f_many (fd m f)); [exact H | apply res_ok_set_full; exact H].
+  - destruct (f_many (fd m f)); [exact H | apply res_ok_set_full; exact H].
+  - unfold del_full. cbn [snd]. destruct (f_many (fd m f)); cbn [snd].
+    + apply (res_ok_frame s); [apply rframe_coll_clear_full | exact H].
+    + apply res_ok_set_full; exact H.
+  - destruct (f_many (fd m f)); [|exact H]. unfold assign_full. cbn [snd].
+    destruct (forallb (check_elem m f) vs); cbn [negb]; [|exact H].
+    apply res_ok_coll_extend_full. apply (res_ok_frame s); [apply rframe_coll_clear_full | exact H].
+  - apply res_ok_coll_add_full; exact H.
+  - apply res_ok_coll_add_full; exact H.
+  - unfold coll_remove_top. destruct (vmem v (vals s (x, f))); cbn [snd]; [|exact H].
+    apply (res_ok_frame s); [apply rframe_coll_remove_full | exact H].
+  - apply res_ok_coll_pop_full; exact H.
+  - apply (res_ok_frame s); [apply rframe_coll_clear_full | exact H].
+  - apply res_ok_coll_extend_full; exact H.
+  - unfold coll_setitem_full. destruct (check_elem m f v) eqn:Ec; cbn [negb]; [|exact H].
+    destruct (f_unique (fd m f)).
+    + destruct ((i <? 0)%Z && ((if (i <? 0)%Z then (zlen (vals s (x, f)) + i)%Z else i) <? 0)%Z); [exact H|].
+      unfold seq_outcome.
+      pose proof (res_ok_coll_pop_full s (x, f) (if (i <? 0)%Z then (zlen (vals s (x, f)) + i)%Z else i) H) as Hp.
+      destruct (fst (coll_pop_full m s (x, f) (if (i <? 0)%Z then (zlen (vals s (x, f)) + i)%Z else i))) as [[e|] s1];
+        cbn [snd] in *; [exact Hp|]. apply res_ok_coll_add_full; exact Hp.
+    + pose proof (res_ok_link_elem s x f v H) as H1.
+      destruct (norm_index (zlen (vals (link_elem m s x f v) (x, f))) i); cbn [snd]; exact H1.
+  - unfold coll_delitem_full. cbn [snd]. destruct (f_unique (fd m f)).
+    + apply res_ok_coll_pop_full; exact H.
+    + destruct (py_pop i (vals s (x, f))) as [[w l']|]; exact H.
+  - apply res_ok_delete_obj; exact H.
+  - apply res_ok_res_append; exact H.
+  - unfold res_remove. destruct (nmem o (rcont s r)) eqn:En; cbn [snd]; [|exact H].
+    apply res_ok_remove_raw; [exact H | apply nmem_In; exact En].
+  - generalize dependent s. induction os as [|o os IH]; intros s H; simpl; [exact H|].
+    apply IH. apply res_ok_res_append. exact H.
+  - exact H.
+Qed.
+
+Theorem res_ok_history ops : res_ok (fold_left (next m) ops (init_state m)).
+Proof.
+  assert (G : forall s, res_ok s -> res_ok (fold_left (next m) ops s)).
+  { induction ops as [|o ops IH]; intros s H; simpl; [exact H|]. apply IH. apply res_ok_step. exact H. }
+  apply G. split; [intros r; constructor | intros c r; simpl; split; [tauto | discriminate]].
+Qed.
+
+End ResOk.
